@@ -261,7 +261,7 @@ func runSolicit(c c31cCase) (vals [][]link_solicit.SolicitMountedStream, strm *f
 	for time.Now().Before(dl) {
 		ok := true
 		for _, h := range handlers {
-			if !h.Idle {
+			if !h.IsIdle() {
 				ok = false
 			}
 		}
